@@ -104,32 +104,47 @@ func Harness_C15_openfile_and_handle() {
 }
 
 func c15Handle(v *verifFS, h afero.File, snap c15Snapshot) {
+	// a sequence of handle calls (a read, a seek back, a close is what a media player does on a read-only share)
+	steps := 2
+	if vm.Tier() == "thorough" {
+		steps = 3
+	}
+	for i := 0; i < steps; i++ {
+		c15HandleStep(v, h, snap, "s"+string(rune('0'+i))+".")
+	}
+	cerr := h.Close()
+	_ = cerr
+	vm.Assert("C15.close_changes_nothing", c15Unchanged(v, snap))
+	vm.Assert("C15.handle_locks_free", v.Env.LocksFree())
+}
+
+func c15HandleStep(v *verifFS, h afero.File, snap c15Snapshot, tag string) {
 	buf := make([]byte, 2)
 	var err error
 	writer := false
-	switch vm.Choice("hop", 12) {
+	switch vm.Choice(tag+"hop", 12) {
 	case 0:
 		writer = true
 		_, err = h.Write([]byte("xy"))
 	case 1:
 		writer = true
-		_, err = h.WriteAt([]byte("x"), int64(vm.Int("off", -1, 4)))
+		_, err = h.WriteAt([]byte("x"), int64(vm.Int(tag+"off", -1, 4)))
 	case 2:
 		writer = true
 		_, err = h.WriteString("z")
 	case 3:
 		writer = true
-		err = h.Truncate(int64(vm.Int("size", -1, 5)))
+		err = h.Truncate(int64(vm.Int(tag+"size", -1, 5)))
 	case 4:
 		_, err = h.Read(buf)
 	case 5:
-		_, err = h.ReadAt(buf, int64(vm.Int("off", 0, 4)))
+		_, err = h.ReadAt(buf, int64(vm.Int(tag+"off", 0, 4)))
 	case 6:
-		_, err = h.Seek(int64(vm.Int("off", 0, 4)), vm.Int("whence", 0, 3))
+		_, err = h.Seek(int64(vm.Int(tag+"off", -2, 4)), vm.Int(tag+"whence", 0, 3))
 	case 7:
-		_, err = h.Readdir(vm.Int("n", -1, 2))
+		_, err = h.Readdir(vm.Int(tag+"n", -1, 2))
 	case 8:
-		_, err = h.Readdirnames(vm.Int("n", -1, 2))
+		_, err = h.Readdirnames(vm.Int(tag+"n", -1, 2))
 	case 9:
 		_, err = h.Stat()
 	case 10:
@@ -142,8 +157,4 @@ func c15Handle(v *verifFS, h afero.File, snap c15Snapshot) {
 		vm.Assert("C15.handle_writer_returns_error", err != nil)
 		vm.Assert("C15.handle_writer_returns_permission_or_isdir", err == os.ErrPermission || err == config.ErrIsDirectory)
 	}
-	cerr := h.Close()
-	_ = cerr
-	vm.Assert("C15.close_changes_nothing", c15Unchanged(v, snap))
-	vm.Assert("C15.handle_locks_free", v.Env.LocksFree())
 }
